@@ -107,6 +107,9 @@ def idc(e, env, ids, consts, depth=0, in_local=False):
     if not isinstance(e, dict):
         return
     k = e.get("k")
+    if k in ("Bin", "Un", "Paren", "Cond") and isinstance(e.get("v"), int) and not isinstance(e.get("v"), bool):
+        consts.append(e["v"])      # a constant-folded sub-expression is its value: `1u << LG_INIT`, `8`, a named 8 are one constant
+        return
     if k == "Cond" and in_local:
         idc(e.get("a"), env, ids, consts, depth, in_local)
         idc(e.get("e"), env, ids, consts, depth, in_local)
